@@ -113,10 +113,10 @@ def vacuity(msg):
     """A guard against an empty check: some class of inputs/results was never exercised.  Which
     classes show up may depend on what the code under test does; when the code already disagrees
     with the specification, the disagreement is the verdict and the guard becomes a note."""
-    if CURRENT is not None and CURRENT.violations:
-        CURRENT.notes.append("(not exercised on this tree: %s)" % msg)
-        return
-    raise Machinery("vacuity: " + msg)
+    if CURRENT is None:                     # (a forked worker: nobody to defer to)
+        raise Machinery("vacuity: " + msg)
+    # decided when the check ends (main_wrapper): verdicts recorded later still count
+    CURRENT.__dict__.setdefault("pending_vacuity", []).append(msg)
 
 
 def main_wrapper(fn, prop, argv=None):
@@ -153,6 +153,11 @@ def main_wrapper(fn, prop, argv=None):
     from harness import forkpool
     try:
         fn(ctx)
+        pend = ctx.__dict__.get("pending_vacuity", [])
+        if pend and not ctx.violations:
+            raise Machinery("vacuity: " + "; ".join(pend[:3]))
+        for m in pend:
+            ctx.notes.append("(not exercised on this tree: %s)" % m)
         rc = ctx.finish()
     except Machinery as e:
         print("MACHINERY-FAILURE property=%s: %s" % (prop, e))
